@@ -501,7 +501,11 @@ func genCase(t *rapid.T) (*qcase, map[string]int) {
 			c.Src, c.Exp = x.pick("quoteform", "~quote{", "~'{")+s+"}", s
 		}
 		x.lab("top:quote")
-	case kind <= 3:
+	case kind <= 2:
+		// directly nested unquote chains at depth 2-3 (see chainTemplate)
+		s, e := x.chainTemplate()
+		c.Src, c.Exp = x.pick("qqform", "~quasiquote{", "~\"{")+s+"}", e
+	case kind <= 4:
 		s, e := x.expr(d, 1, false)
 		c.Src, c.Exp = x.pick("qqform", "~quasiquote{", "~\"{")+s+"}", e
 		x.lab("top:quasiquote-expr")
